@@ -20,7 +20,9 @@ Spec:   XmlText.tla      class alphabet; Enc (_pcdata_nodes + the minidom text
                          Norm idempotent, requirement accepts t and Norm(t),
                          rejects every single-field mutant, ImplWire meets the
                          requirement (repaired design); the pinned tree's
-                         variants must fail
+                         variants must fail; arrays with 0 / 1 / >= 2 NULL
+                         entries (ShapeSeq), the shared-VALUE.NULL-node
+                         variant of the array encoder (DomAppend) must fail
         CimWireTrace.tla trace validation (TraceKit): verdict per event.
 Binding: abstract strings (TLC enumeration + simulation + TLC counterexamples)
         and abstract trees (TLC simulation of the builder machine + seeded
@@ -137,6 +139,15 @@ def tlc_trees_simulated(ctx, num):
     return [v for v in vals if v]
 
 
+def tlc_trees_nulls(ctx, num):
+    """abstract trees whose arrays have 0, 1 and >= 2 NULL entries"""
+    r, vals = ctx.simulate_behaviours("CimWireMC", "CimWireMCNullsSim.cfg",
+                                      num, 6, var="els", label="behaviour "
+                                      "emission (abstract trees, arrays with "
+                                      "several NULL entries)", env=JVM_ENV)
+    return [v for v in vals if v]
+
+
 def parse_cex_string(out):
     """the string of the last state of a TLC counterexample"""
     j = out.rfind("/\\ s = ")
@@ -190,7 +201,11 @@ def special_cases(rng):
 
 
 VALUED_KINDS = ["prop", "pval", "qual", "qdecl"]
-UNIT_SHAPES = ["null", "scalar", "empty", "v", "n", "vn", "nv"]
+# shapes of spec/CimWireMC.tla (Valued / ShapeSeq): NULL multiplicity none, one
+# and many (two or more NULL entries: adjacent, separated, before / after
+# values, alternating)
+UNIT_SHAPES = ["null", "scalar", "empty", "v", "n", "vn", "nv"] + \
+    H.MANY_NULL_SHAPES
 
 
 def vcs_of(typ):
@@ -229,6 +244,21 @@ def unit_cases(rng, rounds):
             for vc in (vcs if rnd == 0 else vcs[:2]):
                 out.append(tree_case(rng, H.unit_tree("kb", typ, "scalar", vc,
                                                       "ipath"), "unit"))
+        # embedded objects: every shape of CimWireMC!EmbShapes / ShapeSeq
+        # (incl. the object-less values NULL, NULL array, EMPTY array)
+        for kind in ("prop", "pval"):
+            for emb in ("instance", "object"):
+                for sh in UNIT_SHAPES + ["nulla"]:
+                    if sh == "nulla" and kind == "pval":
+                        continue
+                    where = "root"
+                    if kind == "prop" and (rnd + len(out)) % 3 == 0:
+                        where = ("inst", "class")[len(out) % 2]
+                    els = H.emb_unit_tree(kind, emb, "null" if sh == "nulla"
+                                          else sh, where)
+                    if sh == "nulla":
+                        els[0 if where == "root" else 1]["isarr"] = "T"
+                    out.append(tree_case(rng, els, "unit-emb"))
     return out
 
 
@@ -337,6 +367,14 @@ def corrupted_copies(events, verdicts):
                 c = copy.deepcopy(e)
                 del c["got"][i]
                 out.append((c, "Names"))
+            if el["val"].count("~") >= 2 and "nulls" not in done:
+                # one of several NULL entries lost (the last one stays)
+                c = copy.deepcopy(e)
+                k = el["val"].index("~")
+                for fld in ("val", "vt", "cls"):
+                    del c["got"][i][fld][k]
+                out.append((c, "Values.nullentry."))
+                done.add("nulls")
                 c = copy.deepcopy(e)
                 c["got2"][i]["val"][0] += "1"
                 out.append((c, "SecondRound.object"))
@@ -429,6 +467,18 @@ def run(ctx):
             "CimWireMCStructBig.cfg", jvm=JVM, timeout=3000,
             label="object level, repaired design: trees of <= %d elements "
                   "(child order, nesting, paths)" % (3 if quick else 4))
+    ctx.tlc("CimWireMC", "CimWireMCNulls.cfg" if quick else
+            "CimWireMCNullsBig.cfg", jvm=JVM, timeout=3000,
+            label="object level, repaired design: arrays with no, one and "
+                  "two or more NULL entries (adjacent / separated / first / "
+                  "last) in every valued element kind")
+    must_fail(ctx, "CimWireMC", "CimWireMCSharedNull.cfg", "ImplMeetsReq",
+              "regression variant: one shared VALUE.NULL DOM node for all "
+              "NULL entries of an array property (minidom moves it): two "
+              "NULL entries are encoded as one", sens)
+    must_fail(ctx, "CimWireMC", "CimWireMCEmbEmpty.cfg", "ImplMeetsReq",
+              "regression variant: parse_embeddedObject() testing `not val`: "
+              "an empty array of embedded objects reads back as NULL", sens)
     for cfg, what in (
             ("CimWireMCAsIsNull.cfg", "NULL entry in a non-string array: "
              "parser asserts"),
@@ -467,6 +517,11 @@ def run(ctx):
     for recs in trees:
         cases.append(tree_case(rng, H.from_builder(recs, rng),
                                "tlc-simulate"))
+    ntrees = tlc_trees_nulls(ctx, 80 if quick else 1500)
+    ctx.extra["tlc_trees_simulated_null_multiplicity"] = len(ntrees)
+    for recs in ntrees:
+        cases.append(tree_case(rng, H.from_builder(recs, rng),
+                               "tlc-simulate-nulls"))
     cases += unit_cases(rng, 1 if quick else 6)
     cases += random_tree_cases(rng, 400 if quick else 8000,
                                sims[:200] + enum[:200])
@@ -501,11 +556,18 @@ def run(ctx):
         if v["ok"] or not any(c.startswith(expect) for c in v["clauses"]):
             raise vlib.MachineryError(
                 "corrupted event (%s) was not rejected: %s" % (expect, v))
+    nmany = sum(1 for e, v in zip(events, verdicts)
+                if e["op"] == "obj" and v["ok"] and
+                any(el["val"].count("~") >= 2 for el in e["orig"]))
+    ctx.extra["accepted_events_with_two_or_more_null_entries"] = nmany
+    if nmany < 10:
+        raise vlib.MachineryError("vacuous: only %d accepted events with an "
+                                  "array of >= 2 NULL entries" % nmany)
     if len(corrupt) < 8:
         raise vlib.MachineryError("too few corrupted copies (%d)" %
                                   len(corrupt))
     sens.append("%d corrupted copies of accepted events (value token, NULL "
-                "entry, dropped element, flavor, propagated, child order, "
+                "entry, one of two NULL entries dropped, dropped element, flavor, propagated, child order, "
                 "namespace, type, second round) rejected by TLC with the "
                 "expected clause" % len(corrupt))
 
@@ -554,6 +616,10 @@ def run(ctx):
         "PARAMVALUE round trips apply the typing step of "
         "WBEMConnection._methodcall (cimvalue(value, PARAMTYPE)) after "
         "TupleParser.parse_paramvalue, as InvokeMethod does",
+        "array values: NULL multiplicity none / one / two or more (shapes "
+        "of CimWireMC!ShapeSeq, <= 4 entries, <= 2 NULL entries); arrays of "
+        "embedded objects / references with several NULL entries are "
+        "generated by the random driver only",
         "TLC bounds: strings <= 4 (thorough 5) symbols at depth 0, <= 3 at "
         "depth 1..3; trees: every element kind x type x shape with <= 1 "
         "(thorough 2) attributes set, structures of <= 4 elements; larger "
